@@ -605,94 +605,67 @@ def _counter_scheme(fn, counter, assigned_pred):
 
 
 def _r7(ctx):
-    wq = "PDBTrajectoryFile.write"
-    fq = "PDBTrajectoryFile._write_footer"
-    w = ctx.py.func(PDB, wq)
+    """PDBTrajectoryFile.write followed by _write_footer evaluated (sa/tensym.py, sa/writers.py) on model topologies with bonds that go to CONECT records
+    (non-standard residues), the printed lines recorded.  By value: the number a CONECT record uses for an atom is the serial printed on that atom's
+    ATOM line, for one chain with its own serials and for several chains - among them a chain whose only residue has lost its atoms and a chain
+    without residues, which shift the TER numbering - with and without TER records; the CONECT pairs are exactly the bonds."""
+    from .. import writers as W
+    from ..tensym import Ten, Raised
+    from ..ttext import TText
+    from ..pysym import Unsupported as PUnsupported
+    wq, fq = "PDBTrajectoryFile.write", "PDBTrajectoryFile._write_footer"
     f = ctx.py.func(PDB, fq)
-    # ---- ATOM serial scheme --------------------------------------------------------------
-    w_uses_serial = any(isinstance(n, ast.Assign) and dotted(n.targets[0]) == "atomSerial" and "atom.serial" in src(n.value)
-                        for n in walk_no_nested(w))
-    w_serial_cond = None
-    for n in walk_no_nested(w):
-        if isinstance(n, ast.If) and any(isinstance(s, ast.Assign) and dotted(s.targets[0]) == "atomSerial" and "serial" in src(s.value) for s in n.body):
-            w_serial_cond = src(n.test)
-    winit, wincs = _counter_scheme(w, "atomIndex", None)
-    # ---- CONECT numbering scheme -------------------------------------------------------------
-    txt = src(f)
-    shared_map = None
-    for n in walk_no_nested(f):
-        # idiom B: the footer looks the number up in a map filled by write()
-        if isinstance(n, ast.Subscript) and dotted(n.value) and dotted(n.value).startswith("self._") and "serial" in dotted(n.value).lower():
-            shared_map = dotted(n.value)
-    if shared_map:
-        filled = any(isinstance(n, ast.Assign) and isinstance(n.targets[0], ast.Subscript) and dotted(n.targets[0].value) == shared_map
-                     and "atomSerial" in src(n.value) for n in walk_no_nested(w))
-        ctx.decide(filled, "C04-R7", f, PDB, fq, "CONECT number from %s" % shared_map,
-                   "the footer reuses the serials recorded while writing ATOM lines",
-                   "%s is read by the footer but not filled with the ATOM serial in write()" % shared_map)
-        ctx.holds("C04-R7", f, PDB, fq, "serial use", "shared map")
-        ctx.holds("C04-R7", f, PDB, fq, "counter scheme", "shared map")
-        return
-    counter = None
-    for n in walk_no_nested(f):
-        if isinstance(n, ast.Assign) and isinstance(n.targets[0], ast.Subscript) and dotted(n.targets[0].value) == "atomIndex":
-            counter = n
-    if counter is None or winit is None:
-        ctx.undecided("C04-R7", f, PDB, fq, "numbering", "numbering idiom not recognised (neither running counter nor shared map)")
-        return
-    # which values can be stored for an atom?
-    stores = [n for n in walk_no_nested(f) if isinstance(n, ast.Assign) and isinstance(n.targets[0], ast.Subscript)
-              and dotted(n.targets[0].value) == "atomIndex"]
-    f_uses_serial = any("atom.serial" in src(s.value) for s in stores)
-    f_serial_cond = None
-    for n in walk_no_nested(f):
-        if isinstance(n, ast.If) and any(s in n.body for s in stores) and any("atom.serial" in src(s.value) for s in n.body if s in stores):
-            f_serial_cond = src(n.test)
-    ctx.decide(w_uses_serial == f_uses_serial, "C04-R7", f, PDB, fq, "serial use",
-               "ATOM and CONECT both %suse atom.serial" % ("" if w_uses_serial else "do not "),
-               "ATOM lines print atom.serial (when %s) but CONECT numbers ignore it: bonds are lost or mis-assigned on reload "
-               "for topologies with non-contiguous serials" % w_serial_cond)
-    if w_uses_serial and f_uses_serial:
-        norm = lambda s: (s or "").replace("topology", "self._last_topology").replace("self._last_self._last_topology", "self._last_topology")
-        ctx.decide(norm(w_serial_cond) == norm(f_serial_cond), "C04-R7", f, PDB, fq, "serial condition",
-                   "same condition `%s`" % w_serial_cond, "ATOM uses atom.serial when `%s`, CONECT when `%s`" % (w_serial_cond, f_serial_cond))
-    cname = None
-    for s in stores:
-        for nm in ast.walk(s.value):
-            if isinstance(nm, ast.Name) and nm.id != "atom":
-                cname = nm.id
-    finit, fincs = _counter_scheme(f, cname, None) if cname else (None, [])
-    if finit is None:
-        ctx.undecided("C04-R7", f, PDB, fq, "counter scheme", "running counter of the footer not recognised")
-        return
-
-    def number_of_first_atom(init, incs, ter, footer):
-        # value given to the first atom of the first chain: init + increments executed before its use
-        v = init
-        for conds, loops, _ in incs:
-            c = " and ".join(conds)
-            if footer and conds and "ter" in c and "prevChain" in c and ter:
-                v += 1     # footer bumps the counter when a chain *starts*
-        return v
-
-    def bumps_per_chain(incs, ter):
-        n = 0
-        for conds, loops, _ in incs:
-            c = " and ".join(conds)
-            if conds and "ter" in c:
-                n += 1 if ter else 0
-        return n
-
-    for ter in (True, False):
-        w0 = number_of_first_atom(winit, wincs, ter, False)
-        f0 = number_of_first_atom(finit, fincs, ter, True)
-        wb = bumps_per_chain(wincs, ter)
-        fb = bumps_per_chain(fincs, ter)
-        ok = (w0 == f0) and (wb == fb)
-        ctx.decide(ok, "C04-R7", f, PDB, fq, "counter scheme ter=%s" % ter,
-                   "first atom numbered %d in both, %d extra per chain in both" % (w0, wb),
-                   "with ter=%s the first ATOM serial is %d (+%d per chain end) but the first CONECT number is %d (+%d per chain): "
-                   "CONECT records name the wrong atoms" % (ter, w0, wb, f0, fb))
+    lig = lambda n_, k_: ("LIG", n_, [("C%d" % i_, "C") for i_ in range(k_)])
+    worlds = [
+        ("one chain, serials 10 20 35 40", [("A", [lig(1, 2), ("ALA", 2, [("CA", "C")]), lig(3, 1)])], [10, 20, 35, 40], [(0, 1), (1, 3)]),
+        ("one chain, one atom without a serial (inserted after loading)", [("A", [lig(1, 2), lig(2, 2)])], [10, None, 35, 40], [(0, 1), (1, 2), (2, 3)]),
+        ("one chain, no serials", [("A", [lig(1, 2), lig(2, 2)])], None, [(0, 1), (2, 3), (1, 2)]),
+        ("three chains", [("A", [lig(1, 2), ("ALA", 2, [("CA", "C")])]), ("B", [lig(3, 2)]), ("C", [lig(4, 2)])], [7, 8, 9, 10, 11, 12, 13], [(0, 1), (3, 4), (5, 6), (1, 5)]),
+        ("a chain whose residue has no atoms, between two others", [("A", [lig(1, 2)]), ("B", [("NA", 2, [])]), ("C", [lig(3, 2)])], None, [(0, 1), (2, 3), (1, 3)]),
+        ("a chain without residues, between two others", [("A", [lig(1, 2)]), ("B", []), ("C", [lig(3, 2)])], None, [(0, 1), (2, 3), (0, 2)]),
+        ("more than four bonds on one atom", [("A", [lig(1, 7)])], None, [(0, k_) for k_ in range(1, 7)]),
+    ]
+    for title, spec, serials, bonds in worlds:
+        for ter in (True, False):
+            desc = "%s, ter=%s: CONECT numbers are the serials on the ATOM lines; the pairs are the bonds" % (title, ter)
+            try:
+                top = W.pdb_topology(spec, serials=serials)
+                at = top.atoms
+                top.bonds = [(at[i_], at[j_]) for i_, j_ in bonds]
+                top._bonds = top.bonds
+                top.n_bonds = len(bonds)
+                lines, me = W.pdb_written(ctx, top, [Ten.sym("x", (len(at), 3))], W.new_root(), ter=ter, footer=True)
+            except Raised as e:
+                ctx.violated("C04-R7", f, PDB, fq, desc, "refused: %s" % (e.exc or e))
+                continue
+            except PUnsupported as e:
+                ctx.undecided("C04-R7", f, PDB, fq, desc, "not evaluable: %s" % e)
+                continue
+            ser = []
+            try:
+                for l_ in lines:
+                    if (l_.startswith("ATOM") or l_.startswith("HETATM")):
+                        t_ = l_.slice(6, 11) if isinstance(l_, TText) else l_[6:11]
+                        t_ = t_.literal() if isinstance(t_, TText) else t_
+                        ser.append(int(t_))
+                con = set()
+                for l_ in lines:
+                    if isinstance(l_, str) and l_.startswith("CONECT"):
+                        nums = [int(l_[k_:k_ + 5]) for k_ in range(6, len(l_.rstrip("\n")), 5)]
+                        con |= {(nums[0], m_) for m_ in nums[1:]}
+            except (TypeError, ValueError, AttributeError, PUnsupported) as e:
+                ctx.undecided("C04-R7", f, PDB, fq, desc, "the serial column of the lines printed is not a number: %s" % e)
+                continue
+            why = []
+            if len(ser) != len(at):
+                why.append("%d ATOM lines for %d atoms" % (len(ser), len(at)))
+            else:
+                want = {(ser[i_], ser[j_]) for i_, j_ in bonds} | {(ser[j_], ser[i_]) for i_, j_ in bonds}
+                if con != want:
+                    miss, extra = sorted(want - con), sorted(con - want)
+                    why.append("ATOM serials are %s and the bonds join serials %s, but the CONECT records %s%s" % (
+                        ser, sorted({tuple(sorted(p_)) for p_ in want}), ("lack %s" % miss[:3]) if miss else "", ((" and " if miss else "") + "name %s" % extra[:3]) if extra else ""))
+            ctx.decide(not why, "C04-R7", f, PDB, fq, desc, "", "; ".join(why))
 
 
 def r8_fresh_and_renumbered(ctx):
@@ -849,7 +822,7 @@ class _TopWorld:
         self.funcs = {n.name: n for n in mod.tree.body if isinstance(n, ast.FunctionDef)}
         if set(self.classes) != {"Topology", "Chain", "Residue", "Atom"}:
             raise AnalysisError("topology.py: classes Topology / Chain / Residue / Atom not all found")
-        self.EL = {s_: Obj(symbol=s_, name=s_, tag="element " + s_) for s_ in ("N", "C", "O", "H", "Na")}
+        self.EL = {s_: Obj(symbol=s_, name=s_, mass=m_, tag="element " + s_) for s_, m_ in (("N", 14), ("C", 12), ("O", 16), ("H", 1), ("Na", 23))}
         self.SINGLE, self.DOUBLE = Obj(tag="Single"), Obj(tag="Double")
         self.BONDS = [(1, 0, self.SINGLE, 1), (2, 1, None, None), (3, 4, self.DOUBLE, 2)]
 
@@ -859,7 +832,7 @@ class _TopWorld:
         kw = {k.arg: ev.ex(k.value) for k in call.keywords}
         a1, a2 = args[0], args[1]
         return Obj(tag="bond", _isa=("Bond",), atom1=a1, atom2=a2, type=kw.get("type", args[2] if len(args) > 2 else None), order=kw.get("order", args[3] if len(args) > 3 else None),
-                   _iter=lambda: [a1, a2], _getitem=lambda s_, k: [a1, a2][k])
+                   _iter=lambda: [a1, a2], _getitem=lambda s_, k: [a1, a2][k], _contains=lambda x_: x_ is a1 or x_ is a2)
 
     def evaluator(self, env=None, models=None):
         Obj = self.Obj
